@@ -117,6 +117,10 @@ Lemma tok_burn_minter t s n t' : tok_burn t s n = Ok t' -> t_minter t' = t_minte
 Proof. intros H. unfold tok_burn in H. tokm. Qed.
 Lemma tok_increase_allowance_minter t o s n t' : tok_increase_allowance t o s n = Ok t' -> t_minter t' = t_minter t.
 Proof. intros H. unfold tok_increase_allowance in H. tokm. Qed.
+Lemma tok_burn_from_minter t sp o n t' : tok_burn_from t sp o n = Ok t' -> t_minter t' = t_minter t.
+Proof. intros H. unfold tok_burn_from in H. tokm. Qed.
+Lemma tok_decrease_allowance_minter t o s n t' : tok_decrease_allowance t o s n = Ok t' -> t_minter t' = t_minter t.
+Proof. intros H. unfold tok_decrease_allowance in H. tokm. Qed.
 
 Ltac tok_side :=
   let t := fresh "t" in let t' := fresh "t'" in let H := fresh "H" in
@@ -125,7 +129,9 @@ Ltac tok_side :=
         | exact (tok_transfer_from_minter _ _ _ _ _ _ H)
         | exact (tok_mint_minter _ _ _ _ _ H)
         | exact (tok_burn_minter _ _ _ _ H)
-        | exact (tok_increase_allowance_minter _ _ _ _ _ H) ].
+        | exact (tok_increase_allowance_minter _ _ _ _ _ H)
+        | exact (tok_burn_from_minter _ _ _ _ _ H)
+        | exact (tok_decrease_allowance_minter _ _ _ _ _ H) ].
 
 (* ---- handlers ---- *)
 
@@ -302,6 +308,19 @@ Ltac ext_fact H ::=
         | apply fac_add_native_ext in H | apply fac_update_config_ext in H | apply fac_migrate_pair_ext in H
         | apply router_hop_ext in H | apply router_exec_ops_ext in H | apply router_assert_min_ext in H
         | apply cw20_send_ext in H ].
+
+Lemma cw20_send_from_ext w ta sp ow target n h w' : cw20_send_from w ta sp ow target n h = Ok w' -> ext w w'.
+Proof. intros H. unfold cw20_send_from in H. cbv beta zeta in H. ext_solve. Qed.
+
+Ltac ext_fact H ::=
+  first [ apply bank_send_ext in H | apply move_funds_ext in H
+        | (apply with_token_ext in H; [| solve [tok_side]])
+        | (eapply pair_update_decimals_ext in H; [| eassumption])
+        | apply pay_asset_ext in H | apply pair_swap_ext in H | apply pair_withdraw_ext in H
+        | apply pair_provide_ext in H | apply pair_receive_ext in H
+        | apply fac_add_native_ext in H | apply fac_update_config_ext in H | apply fac_migrate_pair_ext in H
+        | apply router_hop_ext in H | apply router_exec_ops_ext in H | apply router_assert_min_ext in H
+        | apply cw20_send_ext in H | apply cw20_send_from_ext in H ].
 
 (* every operation other than pair creation extends the world structurally *)
 Lemma exec_ext w o w' : exec w o = Ok w' ->
